@@ -33,11 +33,16 @@ SIB = ("siblings", "instrumenter_siblings", {})
 MODEF = ("modes", "mode_field", {})
 BLOCKT = ("special", "block_tables", {})
 CLEARS = ("special", "resolve_clears", {})
+CLEARCOH = ("modes", "clear_coherent", {})
 DETAILS = ("misc", "resolver_details", {})
 RECALC = ("mutators", "recalc_set", {})
 REORG = ("mutators", "reorg_inv", {})
 MISS = ("emit", "miss_loud", {})
 MAPARGS = ("emit", "map_args", {})
+FRESH = ("mutators", "fresh_ids", {})
+IMPORD = ("mutators", "import_ordinal", {})
+SCRATCH = ("emit", "loop_scratch", {})
+REIDX = [("reindex", "refers_exh", {"kind": k}) for k in ("func", "global", "memory")]
 IDSPACE = ("mutators", "idspace", {})
 
 
@@ -46,14 +51,14 @@ def EM(kinds, names=False):
 
 
 PROPS = {
-    "C01": P([TT_WE, TT_AUX, CONSTEXPR, ("emit", "section_order", {}), ("nopanic", "payload_exh_rule", {})],
+    "C01": P([TT_WE, TT_AUX, CONSTEXPR, ("emit", "section_order", {}), ("nopanic", "payload_exh_rule", {}), SCRATCH] + REIDX,
              "necessary-condition lint: every value type of the stated profile survives the reader→writer tables; constant-expression operators are re-emitted as themselves; sections are emitted in binary-format order; every payload kind has a handler",
-             "R-TYPE-TABLE (wasm_encoder writer), aux tables, R-CONSTEXPR-TABLE, R-SECTION-ORDER, R-PAYLOAD-EXH.",
+             "R-TYPE-TABLE (wasm_encoder writer), aux tables, R-CONSTEXPR-TABLE, R-SECTION-ORDER, R-PAYLOAD-EXH, R-LOOP-SCRATCH, R-REFERS-EXH (the updaters run on every encode, with identity maps on an unmodified module: each must write a looked-up index back to the operand it was looked up for).",
              "that the whole output validates for every module.",
              "abstract interpretation of match tables over a finite type domain; call-order check"),
-    "C02": P([TT_WE, TT_AUX, CONSTEXPR, ("fields", "types_cover", {}), ("fields", "name_pairing", {}), ("fields", "struct_copy_pairing", {}), ("fields", "custom_sections", {})],
+    "C02": P([TT_WE, TT_AUX, CONSTEXPR, ("fields", "types_cover", {}), ("fields", "name_pairing", {}), ("fields", "struct_copy_pairing", {}), ("fields", "custom_sections", {}), IMPORD, SCRATCH] + REIDX,
              "necessary conditions of content preservation: no type/const table changes a value, no Types field is dropped by the encoder, every name subsection and custom section is re-emitted from where it was stored, struct→struct copies pair like-named fields",
-             "R-TYPE-TABLE, R-CONSTEXPR-TABLE, R-FIELDS-COVER(Types), R-NAME-PAIRING, R-COPY-PAIRING, R-CUSTOM-SECTIONS.",
+             "R-TYPE-TABLE, R-CONSTEXPR-TABLE, R-FIELDS-COVER(Types), R-NAME-PAIRING, R-COPY-PAIRING, R-CUSTOM-SECTIONS, R-IMPORT-ORDINAL, R-LOOP-SCRATCH, R-REFERS-EXH.",
              "equality of decoded forms on every input.",
              "table extraction + field-provenance pairing"),
     "C03": P([("nopanic", "nopanic", {})],
@@ -66,25 +71,25 @@ PROPS = {
              "R-HASHORDER + zero-expected nondeterminism sources on the encode call graph.",
              "nothing of note for safe single-threaded Rust beyond the enumerated sources.",
              "resolved-callee enumeration + loop-body effect classification"),
-    "C05": P([("emit", "idempotent_encode", {}), CLEARS],
+    "C05": P([("emit", "idempotent_encode", {}), CLEARS, CLEARCOH],
              "necessary: in-place remapping requires renormalising the ID sources; lowered special lists are cleared",
-             "R-IDEMPOTENT-ENCODE, R-RESOLVE-CLEARS.",
+             "R-IDEMPOTENT-ENCODE, R-RESOLVE-CLEARS, R-CLEAR-COHERENT.",
              "byte equality of two encodings.",
              "effect analysis of the encode call graph"),
     "C06": P([("reindex", "refers_exh", {"kind": "func"}), ("reindex", "fix_op_dispatch", {}), EM(("func",)), MAPARGS, MISS, RECALC, REORG,
-              ("mutators", "coupled_import_order", {}), IDSPACE],
+              ("mutators", "coupled_import_order", {}), IDSPACE, FRESH, IMPORD],
              "necessary conditions for function references to stay bound: operator coverage, every function-index sink mapped, maps not swapped, loud failure on dangling references, re-indexing armed by every order-changing mutation, reorganise's position bookkeeping, import order coupling, no cross-space id casts",
-             "R-REFERS-EXH(func), R-FIXOP-DISPATCH, R-EMIT-MAPPED(func), R-MAP-ARGS, R-MISS-LOUD, R-RECALC-SET, R-REORG-INV, R-COUPLED-IMPORT-ORDER, R-IDSPACE.",
+             "R-REFERS-EXH(func), R-FIXOP-DISPATCH, R-EMIT-MAPPED(func), R-MAP-ARGS, R-MISS-LOUD, R-RECALC-SET, R-REORG-INV, R-COUPLED-IMPORT-ORDER, R-IDSPACE, R-FRESH-ID, R-IMPORT-ORDINAL.",
              "that reorganise computes the right permutation for every history (only its per-branch invariant preservation is checked); validity of the output.",
              "ADT-driven exhaustiveness + sink provenance + path rules"),
-    "C07": P([("reindex", "refers_exh", {"kind": "global"}), EM(("global",)), MAPARGS, MISS, RECALC, REORG, ("mutators", "who_may_call", {})],
+    "C07": P([("reindex", "refers_exh", {"kind": "global"}), EM(("global",)), MAPARGS, MISS, RECALC, REORG, ("mutators", "who_may_call", {}), FRESH],
              "necessary conditions for global references to stay bound, incl. who may add to the globals collection",
-             "R-REFERS-EXH(global), R-EMIT-MAPPED(global), R-MAP-ARGS, R-MISS-LOUD, R-RECALC-SET, R-REORG-INV, R-WHOMAYCALL.",
+             "R-REFERS-EXH(global), R-EMIT-MAPPED(global), R-MAP-ARGS, R-MISS-LOUD, R-RECALC-SET, R-REORG-INV, R-WHOMAYCALL, R-FRESH-ID.",
              "as C06.",
              "ADT-driven exhaustiveness + sink provenance + who-may-call"),
-    "C08": P([("reindex", "refers_exh", {"kind": "memory"}), ("reindex", "fix_op_dispatch", {}), EM(("memory",)), MAPARGS, MISS, RECALC, REORG],
+    "C08": P([("reindex", "refers_exh", {"kind": "memory"}), ("reindex", "fix_op_dispatch", {}), EM(("memory",)), MAPARGS, MISS, RECALC, REORG, FRESH],
              "exhaustiveness of the memory re-index predicate/updater against the Operator ADT of the build; memory sinks mapped",
-             "R-REFERS-EXH(memory), R-FIXOP-DISPATCH, R-EMIT-MAPPED(memory), R-MAP-ARGS, R-MISS-LOUD, R-RECALC-SET, R-REORG-INV.",
+             "R-REFERS-EXH(memory), R-FIXOP-DISPATCH, R-EMIT-MAPPED(memory), R-MAP-ARGS, R-MISS-LOUD, R-RECALC-SET, R-REORG-INV, R-FRESH-ID.",
              "as C06.",
              "ADT-driven match exhaustiveness"),
     "C09": P([("misc", "delete_pairing", {}), ("emit", "del_guard", {}), MISS, RECALC, REORG],
@@ -92,9 +97,9 @@ PROPS = {
              "R-DELETE-PAIRING, R-DEL-GUARD, R-MISS-LOUD, R-RECALC-SET, R-REORG-INV.",
              "that every other entity keeps its identity over all histories.",
              "field-provenance pairing + guarded-sink analysis"),
-    "C10": P([IDSPACE, ("misc", "convert_flows", {}), RECALC],
+    "C10": P([IDSPACE, ("misc", "convert_flows", {}), RECALC, IMPORD],
              "necessary: the slot flipped to Local is addressed in the function index space, under the signature guard, after the import was deleted",
-             "R-IDSPACE, R-CONVERT-FLOW, R-RECALC-SET.",
+             "R-IDSPACE, R-CONVERT-FLOW, R-RECALC-SET, R-IMPORT-ORDINAL.",
              "that every former use executes the new body.",
              "newtype cross-space lint + path order"),
     "C11": P([("mutators", "coupled_import_order", {}), ("mutators", "counter_inv", {}), ("misc", "convert_flows", {}), RECALC],
@@ -142,14 +147,14 @@ PROPS = {
              "R-BLOCK-TABLES(1,3), R-RESOLVER-DETAILS, R-FLAG-RESET, R-DEAD-AFTER-SINK, R-RESOLVE-CLEARS.",
              "exactly-once at run time.",
              "table agreement + path enumeration"),
-    "C21": P([BLOCKT, DETAILS, CLEARS],
+    "C21": P([BLOCKT, DETAILS, CLEARS, CLEARCOH],
              "necessary: opener stack, delete_block bookkeeping, retain_end, every visited instruction emptied while deleting",
-             "R-BLOCK-TABLES(1,2), R-RESOLVER-DETAILS, R-RESOLVE-CLEARS.",
+             "R-BLOCK-TABLES(1,2), R-RESOLVER-DETAILS, R-RESOLVE-CLEARS, R-CLEAR-COHERENT.",
              "textual result.",
              "table agreement + guarded-write analysis"),
-    "C22": P([("special", "special_flag", {}), CLEARS, ("special", "entry_preserve", {}), MODEF, SIB, ("misc", "dead_after_sink", {}), ("modes", "has_instr_cover", {})],
+    "C22": P([("special", "special_flag", {}), CLEARS, ("special", "entry_preserve", {}), MODEF, SIB, ("misc", "dead_after_sink", {}), ("modes", "has_instr_cover", {}), CLEARCOH],
              "necessary set: the is-special result is never dropped, lowered lists are cleared with the matching mode, the saved entry body is never overwritten, mode→list dispatch, no dead After sink",
-             "R-SPECIAL-FLAG, R-RESOLVE-CLEARS, R-ENTRY-PRESERVE, R-MODE-FIELD, R-SIBLING(instrumenter), R-DEAD-AFTER-SINK, R-HAS-INSTR.",
+             "R-SPECIAL-FLAG, R-RESOLVE-CLEARS, R-ENTRY-PRESERVE, R-MODE-FIELD, R-SIBLING(instrumenter), R-DEAD-AFTER-SINK, R-HAS-INSTR, R-CLEAR-COHERENT.",
              "that every accepted special injection appears in the bytes for every body.",
              "result-use analysis + guarded-write analysis"),
     "C23": P([("emit", "tag_emit", {}), MODEF],
@@ -172,9 +177,9 @@ PROPS = {
              "R-SIBLING(instrumenter), R-COUPLED-STATE, R-WHOMAYCALL.",
              "visit-sequence equality over all components and skip maps.",
              "sibling effect summaries"),
-    "C27": P([("component", "variant_method_tables", {}), ("component", "section_pairing", {})],
+    "C27": P([("component", "variant_method_tables", {}), ("component", "section_pairing", {}), SCRATCH],
              "necessary: each defined-type / canonical-function variant is re-encoded through its own builder method; each section tag replays the vector it recorded with its own cursor",
-             "R-VARIANT-METHOD (2 + 1 tables, 67 arms), R-SECTION-PAIRING (12 tags).",
+             "R-VARIANT-METHOD (2 + 1 tables, 67 arms), R-SECTION-PAIRING (12 tags), R-LOOP-SCRATCH.",
              "correctness of the nesting-skip stack for depth ≥ 2 (push-down discipline over runtime payload sequences).",
              "variant→method correspondence + tag↔vector pairing"),
     "C28": P([("fields", "custom_sections", {})],
@@ -182,14 +187,14 @@ PROPS = {
              "R-CUSTOM-SECTIONS.",
              "byte equality of the emitted sections over edit sequences.",
              "who-may-write + field pairing"),
-    "C29": P([EM((), names=True), ("misc", "name_dispatch", {}), ("fields", "name_pairing", {})],
+    "C29": P([EM((), names=True), ("misc", "name_dispatch", {}), ("fields", "name_pairing", {}), IMPORD],
              "necessary: index-keyed name maps must not be emitted with pre-edit indices; naming dispatches on kind; each name kind re-emitted from where it was stored",
-             "R-EMIT-MAPPED(names), R-NAME-DISPATCH, R-NAME-PAIRING.",
+             "R-EMIT-MAPPED(names), R-NAME-DISPATCH, R-NAME-PAIRING, R-IMPORT-ORDINAL.",
              "name equality over histories.",
              "sink provenance"),
-    "C30": P([CONSTEXPR, TT_BOTH, ("misc", "additions", {}), ("mutators", "swap_flows", {}), ("mutators", "who_may_call", {})],
+    "C30": P([CONSTEXPR, TT_BOTH, ("misc", "additions", {}), ("mutators", "swap_flows", {}), ("mutators", "who_may_call", {}), FRESH],
              "bit-exact constant expressions, exact types, parameter→field flows of the module-level adders",
-             "R-CONSTEXPR-TABLE, R-TYPE-TABLE incl. the wasmparser writer used by add_global, R-ADD-FLOW, R-SWAP, R-WHOMAYCALL.",
+             "R-CONSTEXPR-TABLE, R-TYPE-TABLE incl. the wasmparser writer used by add_global, R-ADD-FLOW, R-SWAP, R-WHOMAYCALL, R-FRESH-ID.",
              "decoded equality of whole modules.",
              "abstract interpretation of match tables + name-aligned flow lint"),
 }
